@@ -39,6 +39,7 @@ from pycardano.serialization import (
     NonEmptyOrderedSet,
     OrderedSet,
     Primitive,
+    RawCBOR,
     default_encoder,
     limit_primitive_type,
     list_hook,
@@ -366,11 +367,23 @@ class _DatumOption(ArrayCBORSerializable):
             return _DatumOption(DatumHash(values[1]))
         else:
             assert isinstance(values[1], CBORTag)
-            v = loads(values[1].value)
-            if isinstance(v, CBORTag):
-                return _DatumOption(RawPlutusData.from_primitive(v))
-            else:
-                return _DatumOption(v)
+            raw = values[1].value
+            datum: Any
+            v = loads(raw)
+            try:
+                datum = RawPlutusData.from_primitive(v) if isinstance(v, CBORTag) else v
+                faithful = (
+                    not isinstance(datum, list)
+                    and cbor2.dumps(datum, default=default_encoder) == raw
+                )
+            except Exception:
+                faithful = False
+            if not faithful:
+                # The restored object would not be written back as the bytes received (another list or byte
+                # string framing than the one pycardano writes, or data it cannot hold): keep those bytes, so that
+                # the output, the hash of its datum and the id of the transaction stay what they are.
+                datum = RawCBOR(raw)
+            return _DatumOption(datum)
 
 
 @dataclass(repr=False)
